@@ -63,7 +63,8 @@ class EventLoop:
     def __init__(self, H, lid, it, env):
         self.H = H
 
-    def havoc(self, env, names):
+    def havoc(self, env, names, state=()):
+        heap.check_state(RUN_LOOP, state, ())
         return tuple(env.get(n) for n in names)
 
     def more(self, env):
@@ -196,7 +197,8 @@ class OrderSeqLoop:
     def __init__(self, H, lid, it, env):
         self.H = H
 
-    def havoc(self, env, names):
+    def havoc(self, env, names, state=()):
+        heap.check_state(EXEC_LOOP, state, ())
         return tuple(env.get(n) for n in names)
 
     def more(self, env):
@@ -293,7 +295,8 @@ class DayLoop:
     def __init__(self, H, lid, it, env):
         self.H = H
 
-    def havoc(self, env, names):
+    def havoc(self, env, names, state=()):
+        heap.check_state(ITER_LOOP, state, ())
         return tuple(env.get(n) for n in names)
 
     def more(self, env):
